@@ -296,7 +296,7 @@ class Run:
             junk = ["new 90c3 1000 1000", "step", "regs", "trace"]
             cmds2, owner = [], []
             for k, c in enumerate(cmds):
-                if c.startswith("new ") or c == "new":
+                if c.split(" ", 1)[0] in ("new", "newraw"):
                     for j in junk:
                         cmds2.append(j)
                         owner.append(None)
